@@ -1291,7 +1291,80 @@ func runC15(o *out, thorough bool, r *rng, _ []string) map[string]interface{} {
 	closeErrorScenarios(o, r, 64)
 	reentrantHandlerScenarios(o, r, 24)
 	defaultCollectorScenarios(o, r, 40)
+	simultaneousCloses(o, thorough)
 	return nil
+}
+
+// countingConn: Close calls counted; Read blocks until the first of them
+type countingConn struct {
+	closedCh chan struct{}
+	closes   atomic.Int32
+}
+
+func (c *countingConn) Read([]byte) (int, error) { <-c.closedCh; return 0, io.ErrClosedPipe }
+func (c *countingConn) Write(p []byte) (int, error) { return len(p), nil }
+func (c *countingConn) Close() error {
+	if c.closes.Add(1) == 1 {
+		close(c.closedCh)
+	}
+	return nil
+}
+
+// simultaneousCloses: several goroutines call Close on one client at the same instant (released together from a
+// spinning barrier), thousands of fresh clients: exactly one call does the shutdown and returns nil, the others
+// return ErrClientClosed, connection and collector are closed once, nothing panics.
+func simultaneousCloses(o *out, thorough bool) {
+	rounds := 4000
+	if thorough {
+		rounds = 40000
+	}
+	prev := runtime.GOMAXPROCS(0)
+	if prev < 4 {
+		runtime.GOMAXPROCS(4)
+		defer runtime.GOMAXPROCS(prev)
+	}
+	for round := 0; round < rounds; round++ {
+		conn := &countingConn{closedCh: make(chan struct{})}
+		coll := &manualCollector{}
+		c, err := stun.NewClient(conn, stun.WithCollector(coll), stun.WithRTO(time.Second))
+		if err != nil {
+			continue
+		}
+		workers := 2 + round%3
+		var ready, nils, refused, panics, other atomic.Int32
+		var wg sync.WaitGroup
+		for w := 0; w < workers; w++ {
+			wg.Add(1)
+			go func() {
+				defer wg.Done()
+				ready.Add(1)
+				for ready.Load() < int32(workers) {
+				}
+				var cerr error
+				pan, _ := guarded(func() { cerr = c.Close() })
+				switch {
+				case pan:
+					panics.Add(1)
+				case cerr == nil:
+					nils.Add(1)
+				case errors.Is(cerr, stun.ErrClientClosed):
+					refused.Add(1)
+				default:
+					other.Add(1)
+				}
+			}()
+		}
+		wg.Wait()
+		coll.mu.Lock()
+		collCloses := coll.closes
+		coll.mu.Unlock()
+		if panics.Load() != 0 || nils.Load() != 1 || int(refused.Load()) != workers-1 || conn.closes.Load() != 1 || collCloses != 1 {
+			o.failFor("C15", "close-not-once", fmt.Sprintf("x %d goroutines call Close on one client at the same instant (round %d): %d returned nil, %d ErrClientClosed, %d something else, %d panicked; connection closed %d times, collector %d times",
+				workers, round, nils.Load(), refused.Load(), other.Load(), panics.Load(), conn.closes.Load(), collCloses))
+			break
+		}
+	}
+	o.countN("simultaneous-closes", rounds)
 }
 
 // errAgent: a ClientAgent whose Close does its work and then reports an error
